@@ -181,7 +181,7 @@ func TestCheck(t *testing.T) {
 			pn = append(pn, n)
 		}
 		sort.Strings(pn)
-		c.Rapid("random-"+kind, c.Pick(1500, 40000), func(t *rapid.T) *vt.Failure {
+		c.Rapid("random-"+kind, c.Pick(1500, 25000), func(t *rapid.T) *vt.Failure {
 			p := conc.Program{FS: kind, Prefix: prefixes[rapid.SampledFrom(pn).Draw(t, "prefix")]}
 			nw := rapid.IntRange(2, 3).Draw(t, "workers")
 			for w := 0; w < nw; w++ {
